@@ -251,13 +251,6 @@ func TestVerifC19FS(t *testing.T) {
 			}
 		}
 
-		isWrite := bits["Create"] || bits["Write"] || bits["Chmod"]
-		if c.File == "fifo-vanish" && !isWrite {
-			// nobody opens the FIFO for this event: do not leave the writer blocked
-			os.Remove(name)
-			c.File, read, statOK = "missing", "RdOpenNotExist", true
-		}
-
 		var err error
 
 		site, msg := c19gen.Catch(func() { err = p.ruleSetsChanged(fsnotify.Event{Name: evName, Op: op}) })
